@@ -63,6 +63,10 @@ CATALOGUE = [
     '(declare-const x Int)\n(declare-const x Int)\n(assert (= |x| |x|))\n',
     '(declare-const x Int)\n(declare-const |y z| Int)\n(assert (= |x| |y z|))\n',
     '(declare-const |x| Int)\n(declare-const y Int)\n(assert (= x y))\n(assert (> |x| y))\n',
+    # definitions that mention each other
+    '(define-fun f () Int g)\n(define-fun g () Int f)\n(assert (> f 0))\n',
+    '(define-fun f ((a Int)) Int (g a))\n(define-fun g ((b Int)) Int (+ (f b) 1))\n(declare-const k Int)\n(assert (> (f k) 0))\n',
+    '(define-fun w () (_ BitVec 8) ((_ zero_extend 3) _w))\n(define-fun _w () (_ BitVec 5) ((_ zero_extend 3) w))\n(assert (= w #x03))\n',
     # an equality between two copies of a term: a fresh variable for one of
     # them can be eliminated again
     '(declare-const a Int)\n(assert (= (+ a 1) (+ a 1)))\n',
